@@ -14,7 +14,7 @@ class CallMixin:
                 'exit', 'map', 'frozenset', 'next', 'issubclass', 'setattr', 'delattr', 'callable', 'ghost_list', 'open',
                 'assume'}
     SPEC_FUNCS = {'old', 'forall', 'exists', 'forall_ref', 'implies', 'ite', 'eqv', 'typeis', 'isold', 'isnew', 'len', 'min', 'max',
-                  'abs', 'isinstance', 'isnone', 'notnone', 'seqeq', 'iff', 'subtype', 'sizeof'}
+                  'abs', 'isinstance', 'isnone', 'notnone', 'seqeq', 'iff', 'subtype', 'sizeof', 'sumof'}
 
     # ------------------------------------------------------------------------------------------- entry
     def ev_Call(self, node, fr):
@@ -512,6 +512,8 @@ class CallMixin:
                             self.heap[k] = v
             if name in ('forall', 'exists', 'forall_ref'):
                 return self.quantifier(name, node, fr)
+            if name == 'sumof':
+                return self.spec_sum(node, fr)
             if name in self.reg.macros:
                 return self.expand_macro(name, [self.ev(a, fr) for a in node.args], fr)
             if name in self.reg.ufs:
@@ -578,6 +580,41 @@ class CallMixin:
                     return self.inline(fi, [recv] + args, {}, fr, node)
             raise Unsupported(f"spec method call .{f.attr} on {recv!r}")
         raise Unsupported("spec call form")
+
+    def spec_sum(self, node, fr):
+        """sumof(k, lo, hi, e(k)): the sum of e(k) for lo <= k < hi (0 unless 0 <= lo <= hi).
+
+        Encoded with a prefix-sum function S_e(n) = e(0) + ... + e(n-1) introduced by its recursive definition (a conservative
+        definitional extension: S_e(0) = 0, S_e(n) = S_e(n-1) + e(n-1) for n > 0).  The function is hash-consed on the z3 term
+        of the summand, so two occurrences whose summands are the same term in the current state (same heap arrays, same
+        free variables) denote the same function - which is what lets a loop invariant advance by one unfolding without
+        induction.  Summands that differ (e.g. after a heap write to a field they read) get unrelated functions."""
+        if self.in_quant:
+            raise Unsupported("sumof inside a quantifier")
+        var, lo, hi, body = node.args
+        iv = z3.Int('sumk!' + var.id)
+        inner = Frame(fr.fi, fr.cls, {var.id: VInt(iv)}, spec=True, parent=fr)
+        inner.module = fr.module
+        inner.noforks = True
+        inner.entry_vars, inner.old_heap = fr.entry_vars, fr.old_heap
+        inner.alloc_before = getattr(fr, 'alloc_before', None)
+        self.in_quant += 1
+        try:
+            e = z3.simplify(self.as_int(self.ev(body, inner)))
+        finally:
+            self.in_quant -= 1
+        key = e.sexpr()
+        if not hasattr(self, '_sumdefs') or self._sumdefs_epoch is not self.pc:
+            self._sumdefs, self._sumdefs_epoch = {}, self.pc
+        S = self._sumdefs.get(key)
+        if S is None:
+            S = z3.Function(self.fresh_name('psumof'), I, I)
+            self._sumdefs[key] = S
+            n = self.fresh_int('n')
+            self.assume(S(0) == 0)
+            self.assume(z3.ForAll([n], z3.Implies(n > 0, S(n) == S(n - 1) + z3.substitute(e, (iv, n - 1))), patterns=[S(n)]))
+        lo_z, hi_z = self.as_int(self.ev(lo, fr)), self.as_int(self.ev(hi, fr))
+        return VInt(z3.If(z3.And(lo_z >= 0, lo_z <= hi_z), S(hi_z) - S(lo_z), 0))
 
     def quantifier(self, name, node, fr):
         a = node.args
